@@ -448,7 +448,7 @@ func runOffer2(o *Out, r *rand.Rand, thorough bool, _ []string) {
 					parts = append(parts, fmt.Sprintf("%d/%s", pos, cont))
 				}
 				o.Case(input, fmt.Sprintf("queue=%s from=%d", strings.Join(parts, ","), b2i(el.Node == a.p.Self().ID())))
-			case <-time.After(30 * time.Second):
+			case <-time.After(85 * time.Second): // longer than the code's own connect (15 s) and read (60 s) deadlines
 				o.Case(input, "queue=timeout")
 			}
 		}
